@@ -330,7 +330,7 @@ package environment
 //@   property C01
 // Teardown runs under the environment's transitionMutex (so it is serialised with transitions) and forces DONE only there.
 //@ func (envs *Manager) TeardownEnvironment(environmentId uid.ID, force bool) (err error)
-//@   property C01 C06 C10 C08
+//@   property C01 C06 C10 C08 C03
 // C08 / C06 (every DESTROY and after_DESTROY hook runs, at its weight): joining the after_DESTROY hooks to the DESTROY
 // hooks never drops what is already filed under a weight
 //@   [C06 C08] on mapupdate hooksMapForDestroy : assert len(value) >= len(v) && ((key in hooksMapForDestroy) ==> len(value) == len(hooksMapForDestroy[key]) + len(v))
@@ -375,6 +375,23 @@ package environment
 //@   [C06] loop 3 invariant nApp == 0
 //@   [C06] loop 4 invariant nApp == 0
 //@   [C06] loop 7 invariant nApp == nFT
+//   C01 (DONE is terminal; an illegal request is never executed): whatever `force` says, a teardown that finds the
+//   environment in DONE - the first state it reads under the lock - does nothing and returns an error
+//@   ghostvar nCS int = 0
+//@   ghostvar entryDone bool = false
+//@   [C01] on aftercall (*Environment).CurrentState when nCS == 0 : entryDone = (result == "DONE") ; nCS = 1
+//@   [C01] on send task.Manager.MessageChannel : assert !entryDone
+//@   [C01] on call (*Environment).handleAllHooks : assert nCS == 1 && !entryDone
+//@   [C01] ensures entryDone ==> err != nil
+//   C08 (calls still pending are cancelled when the environment goes away): the cancellation comes after everything the
+//   teardown itself starts - the leave_<state> hooks and the DESTROY hooks - so that calls started by those are covered
+//@   ghostvar leaveDone bool = false
+//@   [C08] on aftercall (*Environment).handleAllHooks : leaveDone = true
+//@   [C08] on call (*Manager).cancelCallsPendingAwait : assert leaveDone && sends == 1 && recvs == 1
+//   C03 (a live environment keeps watching its workflow): the workflow-state watcher is taken away only once the
+//   environment has left the listing - never on a path on which the teardown is refused or fails
+//@   [C03] on defer (*Environment).unsubscribeFromWfState : assert false
+//@   [C03] on call (*Environment).unsubscribeFromWfState : assert removed
 //   C10: teardown while RUNNING examines both end timestamps independently and sets each only if still empty
 //@   ghostvar sawEndGet bool = false
 //@   ghostvar sawCompGet bool = false
